@@ -2304,7 +2304,7 @@ var simNontrivial = map[string][]string{
 
 func simCaseCount(e vEnv) int64 {
 	if e.Tier == "thorough" {
-		return 600000
+		return 1800000
 	}
 	return 24000
 }
